@@ -617,6 +617,11 @@ def gen_request(rng):
     if kind == 'lm':
         z = lambda: rng.choice([0, 0, 0, 1, -1, rng.randint(-2 ** 31 + 1, 2 ** 31 - 1), rng.randint(-1000, 1000)])
         args = [z(), z(), z(), z(), z(), z()]
+        if rng.random() < 0.08:
+            # all six at (or near) the 31-bit limits: the longest command lines there are (60 to 70 bytes)
+            big = lambda: rng.choice([2147483647, -2147483647, rng.randint(10 ** 8, 2 ** 31 - 1),
+                                      -rng.randint(10 ** 8, 2 ** 31 - 1), rng.randint(10 ** 6, 10 ** 9), -123, 7])
+            args = [big(), big(), big(), big(), big(), big()]
         c = rng.choice(['absent', 'absent', None, 0, 0, 1, 2, 3])
         k = dict(vb)
         if c != 'absent':
